@@ -38,7 +38,7 @@ fn render_md(d: &Doc, di: usize, marks: &Path) -> String {
         s.push_str(&format!("# {}\n\n", id));
         let mut cfg = vec![];
         if let Some(k) = t.inline_skip { cfg.push(format!("skip_document_code: {}", k)); }
-        if t.kind == 'T' { cfg.push("timeout: 400ms".to_string()); }
+        if t.kind == 'T' || t.kind == 'B' { cfg.push("timeout: 400ms".to_string()); }
         if t.kind == 'D' { cfg.push("detached: true".to_string()); }
         if t.kind == 'w' { cfg.push("wait: 2s".to_string()); }   // scrut sleeps two seconds before it runs this test case
         if cfg.is_empty() { s.push_str("```scrut\n"); } else { s.push_str(&format!("```scrut {{{}}}\n", cfg.join(", "))); }
@@ -49,6 +49,9 @@ fn render_md(d: &Doc, di: usize, marks: &Path) -> String {
             'C' => s.push_str(&format!("$ {}; echo foo; (exit {})\nfoo\n", mark, t.code)),
             'E' => s.push_str(&format!("$ {}; echo foo; (exit {})\nfoo\n[{}]\n", mark, t.code, t.code)),
             'S' => s.push_str(&format!("$ {}; (exit {})\n", mark, effective_skip(d, t))),
+            // the shell ends at once, a background child keeps its output open beyond the limit of 400 ms: scrut waits for the output, so this
+            // is a timeout (and must not pass for a command that finished)
+            'B' => s.push_str(&format!("$ {}; echo foo; sleep 2.5 &\nfoo\n", mark)),
             'Q' => s.push_str(&format!("$ {}; exit {}\n", mark, effective_skip(d, t))),
             'T' | 'G' => s.push_str(&format!("$ {}; {}\n", mark, slow_cmd(t.kind, &id, marks))),
             'D' => s.push_str(&format!("$ {}; sleep 0.05 &\n", mark)),
@@ -72,7 +75,8 @@ fn render_cram(d: &Doc, di: usize, marks: &Path) -> String {
             'O' => s.push_str(&format!("  $ {}; echo foo\n  bar\n", mark)),
             'C' => s.push_str(&format!("  $ {}; echo foo; (exit {})\n  foo\n", mark, t.code)),
             'E' => s.push_str(&format!("  $ {}; echo foo; (exit {})\n  foo\n  [{}]\n", mark, t.code, t.code)),
-            'S' => s.push_str(&format!("  $ {}; (exit {})\n", mark, 80)),
+            // (output without a final newline: the divider that carries the skip code then stands on the same line)
+            'S' => s.push_str(&format!("  $ {}; printf 'no newline'; (exit {})\n", mark, 80)),
             'Q' => s.push_str(&format!("  $ {}; exit {}\n", mark, 80)),
             'G' => s.push_str(&format!("  $ {}; {}\n", mark, slow_cmd('G', &id, marks))),
             'K' => s.push_str(&format!("  $ {}; kill -9 $$\n", mark)),
@@ -149,7 +153,7 @@ pub fn gen_run(r: &mut Rng) -> (Vec<Doc>, Option<u64>, bool) {
                 3 => { t.kind = 'C'; t.code = *r.pick(&[1, 2, 80, 255]); }
                 4 | 5 => { t.kind = 'E'; t.code = *r.pick(&[1, 2, 3, 80]); }
                 6 => t.kind = if r.chance(1, 3) { 'Q' } else { 'S' },
-                7 => if slow_budget && !slow_used { slow_used = true; if cram || r.chance(1, 2) { t.kind = 'G'; if cram { cli_timeout = Some(1); } else { d.total_ms = Some(800); } } else { t.kind = 'T'; } },
+                7 => if slow_budget && !slow_used { slow_used = true; if cram || r.chance(1, 2) { t.kind = 'G'; if cram { cli_timeout = Some(1); } else { d.total_ms = Some(800); } } else { t.kind = if r.chance(1, 3) { 'B' } else { 'T' }; } },
                 8 => if !cram { t.kind = 'D' },
                 9 => if r.chance(1, 3) { t.kind = 'K' },
                 10 => if cram && r.chance(1, 2) { t.kind = 'X' },
@@ -164,7 +168,7 @@ pub fn gen_run(r: &mut Rng) -> (Vec<Doc>, Option<u64>, bool) {
     if r.chance(1, 8) && !slow_used {
         let mut tests = vec![T { kind: *r.pick(&['P', 'D']), code: 0, inline_skip: None }, T { kind: 'D', code: 0, inline_skip: None }];
         if r.chance(1, 2) { tests.push(T { kind: *r.pick(&['P', 'O']), code: 0, inline_skip: None }); }
-        tests.push(T { kind: 'T', code: 0, inline_skip: None });
+        tests.push(T { kind: *r.pick(&['T', 'T', 'B']), code: 0, inline_skip: None });
         for _ in 0..r.range(0, 2) { tests.push(T { kind: *r.pick(&['P', 'O', 'D']), code: 0, inline_skip: None }); }
         docs.push(Doc { cram: false, role: 'm', docskip: None, total_ms: None, tests, fileno: 0 });
     }
@@ -181,7 +185,7 @@ pub fn gen_run(r: &mut Rng) -> (Vec<Doc>, Option<u64>, bool) {
         if r.chance(1, 2) { tests.push(T { kind: *r.pick(&['P', 'O', 'E']), code: 1, inline_skip: None }); }
         tests.push(T { kind: 'S', code: 0, inline_skip: None });
         if r.chance(1, 2) { tests.push(T { kind: 'P', code: 0, inline_skip: None }); }
-        tests.push(T { kind: *r.pick(&['X', 'X', 'Q', 'K']), code: 0, inline_skip: None });
+        tests.push(T { kind: *r.pick(&['X', 'Q', 'K', 'K']), code: 0, inline_skip: None });
         if r.chance(1, 2) { tests.push(T { kind: 'P', code: 0, inline_skip: None }); }
         docs.push(Doc { cram: true, role: 'm', docskip: None, total_ms: None, tests, fileno: 0 });
     }
